@@ -19,9 +19,13 @@ type solverSpec struct {
 
 var solvers = []solverSpec{
 	{"z3-5.1.0", func(f string, t int) []string { return []string{"z3-new", fmt.Sprintf("-T:%d", t), f} }},
+	{"z3-5.1.0/ematch", func(f string, t int) []string { return []string{"z3-new", fmt.Sprintf("-T:%d", t), "smt.mbqi=false", f} }},
 	{"z3-4.8.12", func(f string, t int) []string { return []string{"/usr/bin/z3", fmt.Sprintf("-T:%d", t), f} }},
 	{"cvc5-1.0", func(f string, t int) []string {
 		return []string{"cvc5", fmt.Sprintf("--tlimit=%d", t*1000), "--quiet", f}
+	}},
+	{"cvc5-1.0/enum", func(f string, t int) []string {
+		return []string{"cvc5", fmt.Sprintf("--tlimit=%d", t*1000), "--quiet", "--full-saturate-quant", f}
 	}},
 }
 
